@@ -79,9 +79,9 @@ func (x *Exec) crcTerm(st *State, s *SliceV, n *Term) *Term {
 	unfold := tb.Implies(tb.BVCmp("bvslt", tb.BVi(64, 0), n),
 		tb.Eq(t, x.crcStep(tb.App(f, tb.Intc(int64(sn.id)), nm1), x.Select(sn.c, tb.BVBin("bvadd", sn.off, nm1)))))
 	st.Assume(unfold)
-	// frame lemma instances against every other snapshot of the same object
+	// frame lemma instances against every other snapshot (same or different object)
 	for _, o := range x.crcSnaps {
-		if o == sn || o.obj != sn.obj {
+		if o == sn {
 			continue
 		}
 		lens := append([]*Term{n}, o.lens...)
